@@ -59,12 +59,14 @@ pub struct Plan {
     pub stall_at: Option<(usize, u64)>,
     /// (piece bytes, pause ms): write the response in small pieces with a pause after each
     pub trickle: Option<(usize, u64)>,
+    /// close the connection abruptly after this many bytes of the whole HTTP response (status line and headers included; 0 = say nothing)
+    pub cut_wire_at: Option<usize>,
     pub content_type: String,
 }
 
 impl Plan {
     pub fn ok(body: Vec<u8>) -> Plan {
-        Plan { status: 200, framing: Framing::ContentLength, body, frags: vec![], cut_at: None, stall_before_ms: 0, stall_at: None, trickle: None, content_type: "application/ipp".into() }
+        Plan { status: 200, framing: Framing::ContentLength, body, frags: vec![], cut_at: None, stall_before_ms: 0, stall_at: None, trickle: None, cut_wire_at: None, content_type: "application/ipp".into() }
     }
 }
 
@@ -300,7 +302,13 @@ impl Server {
                 wire.extend_from_slice(&plan.body[..limit]);
             }
         }
-        let cut = plan.cut_at.map(|c| c < plan.body.len()).unwrap_or(false);
+        let mut cut = plan.cut_at.map(|c| c < plan.body.len()).unwrap_or(false);
+        if let Some(c) = plan.cut_wire_at {
+            if c < wire.len() {
+                wire.truncate(c);
+                cut = true;
+            }
+        }
         // write in fragments
         let mut pos = 0usize;
         let mut i = 0usize;
